@@ -20,8 +20,8 @@ Definition buffering_pass (s : state) : state :=
   add_log s (flat_map (fun e => if ek e =? 3 then [e] else []) (log s)).
 Theorem C10_buffering_mutant_refuted :
   let ops := [OTimer 0 [116]; ORecord 0 5] in
-  let s := buffering_pass (run FPlain (fun _ => 0) ([], []) ops) in
-  ~ delivered FPlain s (records (fun _ => 0) ([], []) (ops ++ [OPass])).
+  let s := buffering_pass (run san_id FPlain (fun _ => 0) ([], []) ops) in
+  ~ delivered FPlain s (records san_id (fun _ => 0) ([], []) (ops ++ [OPass])).
 Proof. vm_compute. intros [Hh _]. discriminate. Qed.
 Print Assumptions C10_buffering_mutant_refuted.
 
@@ -29,7 +29,7 @@ Print Assumptions C10_buffering_mutant_refuted.
    the cached handle (no precedence) is told apart on a scope with both. *)
 Theorem C10_no_precedence_mutant_refuted :
   let ops := [OTimer 0 [116]; ORecord 0 5] in
-  let s := run FBoth (fun _ => 0) ([], []) ops in
-  ~ delivered FBoth (add_log s [Ev 3 [5] [[116]]]) (records (fun _ => 0) ([], []) ops).
+  let s := run san_id FBoth (fun _ => 0) ([], []) ops in
+  ~ delivered FBoth (add_log s [Ev 3 [5] [[116]]]) (records san_id (fun _ => 0) ([], []) ops).
 Proof. vm_compute. intros [_ Hh]. discriminate. Qed.
 Print Assumptions C10_no_precedence_mutant_refuted.
